@@ -36,11 +36,20 @@ def run_case(rep, scn, case, sb, tag):
     history = []
     for step in range(case["steps"]):
         files = R.files_of(cur)
-        mode = rng.choice(["clean", "faulty", "faulty", "local"])
+        mode = rng.choice(["clean", "faulty", "faulty", "local", "pool_fail"])
         plan = R.gen_fault_plan(rng, cur, files, density=rng.choice([1, 2, 3])) if mode == "faulty" else {}
+        if mode == "pool_fail":
+            # the metadata stages succeed, one or two pool files persistently fail
+            pool = sorted(p for p in files[url] if p.startswith("pool/"))
+            if pool:
+                plan = {url: {p: {"first": [], "rest": rng.choice(["error", "missing", "short"])}
+                              for p in rng.sample(pool, min(len(pool), rng.randint(1, 2)))}}
         res = R.run_observed(cur, base, plan=plan, files_by_url=files,
                              local_fault=rng.randint(1, 150) if mode == "local" else None)
         history.append((mode, res.code))
+        if rng.random() < 0.35:
+            history.append(("same-upstream", 0))     # the next run sees the same upstream version again
+            continue
         cur = P.Scenario([dict(r, version=P.gen_version(rng, serial=cur.repos[0]["version"]["serial"] + 1,
                                                         prev=r["version"])) for r in cur.repos], nthreads=cur.nthreads)
     files = R.files_of(cur)
@@ -103,7 +112,8 @@ def run_case(rep, scn, case, sb, tag):
 
 def run(rep: C.Report):
     rep.rule = ("histories of 2-4 upstream versions (packages added/removed/upgraded, compression sets, by-hash "
-                "and release flavours changing, pool paths immutable) with a clean / faulty / locally-faulted run "
+                "and release flavours changing, pool paths immutable; the upstream sometimes stays the same "
+                "between two runs) with a clean / faulty / locally-faulted / pool-stage-failing run "
                 "after each, then a fault-free run; compared with a fresh mirror; then a repeat run; distinct by "
                 "(history of (mode, exit), final exit)")
     rep.assumptions += ["cleaning enabled = clean + _autoclean with the wipe guard off (ratios 0)",
